@@ -317,8 +317,9 @@ def shard_bfs(ctx, shard):
     seen = set()
     total = 0
     for init in INITS:
-        if 'C' in init and not reduced:
-            # the lists with a command argument: full operation set to depth 2, reduced set at depth 3
+        if not reduced and not ctx.thorough and init not in ((), ('G1', 'G2', 'K')):
+            # quick tier: the full operation set to depth 3 from the empty list and from the list with twins; from the
+            # other initial lists to depth 2 (the reduced set reaches depth 3 from every initial list)
             ops_all, depths = OPS, range(1, min(depth, 2) + 1)
         else:
             ops_all, depths = (OPS_REDUCED if reduced else OPS), ([depth] if reduced else range(1, depth + 1))
